@@ -47,11 +47,15 @@ func NewReflector[S, A any](t hseq.Type[S]) Reflector[A] {
 	ft := t.Type
 	fv := reflect.TypeOf(new(A)).Elem()
 
+	cat := reflect.TypeOf(new(S)).Elem()
+
 	if ft.String() == fv.String() && ft.AssignableTo(fv) {
+		if !focusable(cat, 0, t.StructField, t.RootOffs+t.Offset) {
+			panic(fmt.Errorf("invalid focus: Reflector[%s, %s] field %s is not stored inside the struct (container is not a struct or the field is behind an embedded pointer)", cat, fv, t.Name))
+		}
 		return &lens[S, A]{t}
 	}
 
-	cat := reflect.TypeOf(new(S)).Elem()
 	panic(fmt.Errorf("invalid type: Reflector[%s, %s] not compatible with %s", cat.Name(), ft.Name(), fv.Name()))
 }
 
